@@ -699,8 +699,7 @@ fn parse_time(s: &str, converter: &Converter) -> Result<u32, ParseTimeError> {
     let r = parse_time_with_units(s, converter);
     // if any error, try to fall back to a full float parse
     if r.is_err() {
-        let minutes = s.parse::<f64>().map(|m| m.round() as u32);
-        if let Ok(minutes) = minutes {
+        if let Some(minutes) = s.parse::<f64>().ok().and_then(minutes_from_f64) {
             return Ok(minutes);
         }
     }
@@ -720,6 +719,8 @@ pub(crate) enum ParseTimeError {
     ParseFloatError(#[from] ParseFloatError),
     #[error("An empty value is not valid")]
     Empty,
+    #[error("The time is negative, not finite or too big")]
+    OutOfRange,
 }
 
 fn parse_common_time_format(s: &str) -> Option<u32> {
@@ -781,7 +782,18 @@ fn parse_time_with_units(s: &str, converter: &Converter) -> Result<u32, ParseTim
         let number = number.parse::<f64>()?;
         total += to_minutes(number, unit)?;
     }
-    Ok(total.round() as u32)
+    minutes_from_f64(total).ok_or(ParseTimeError::OutOfRange)
+}
+
+/// Rounds to whole minutes. `None` if the value is not representable: not
+/// finite, negative or too big.
+fn minutes_from_f64(minutes: f64) -> Option<u32> {
+    let minutes = minutes.round();
+    if minutes >= 0.0 && minutes <= u32::MAX as f64 {
+        Some(minutes as u32)
+    } else {
+        None
+    }
 }
 
 fn dynamic_time_units(
